@@ -37,8 +37,8 @@ CASE_TIMEOUT = 120  # seconds of wall clock for one run in a child (the machine 
 # ----------------------------------------------------------------------------- rendering of modelled file systems
 BAD_CELL = {
     "syntax": "7 0 -1 ) (",  # the LALR parser logs a syntax error and recovers to the end: ParsingError
-    "logThenRaise": "7 0 : -1 imp:|=1",  # a syntax error is logged, then the lexer raises on '|': LexError, log kept
-    "raiseOnly": "7 0 -1 imp:|=1",  # the lexer raises before any syntax error: LexError, log empty
+    "logThenRaise": "7 0 : -1 imp:|=1",  # a syntax error is logged, then the lexer raises on '|': MalformedInputError, log kept
+    "raiseOnly": "7 0 -1 imp:|=1",  # the lexer raises before any syntax error: MalformedInputError, log empty
 }
 BAD_READ = {
     "syntax": "read file",
@@ -69,6 +69,139 @@ def render_files(files, top, directory):
             else:
                 fh.write("".join(l + "\n" for l in lines))
     return os.path.join(directory, f"f{top}.txt")
+
+
+# ----------------------------------------------------------------------------- problems with every data-card family
+RICH_CELLS = ["1 1 -1.0 -1 imp:n=1", "2 0 1 -2 imp:n=1", "3 0 2 imp:n=0"]
+RICH_SURFS = ["1 so 5", "2 so 10"]
+RICH_DATA = {  # one card per parser / data-input family (insertion order = default order in the file)
+    "m": "m1 1001.80c 2 8016.80c 1",
+    "mt": "mt1 lwtr.20t",
+    "tr": "tr1 0 0 1",
+    "mode": "mode n",
+    "kcode": "kcode 1000 1.0 10 50",
+    "ksrc": "ksrc 0 0 0",
+    "si": "si1 l 1 2 3",
+    "sp": "sp1 d 0.2 0.3 0.5",
+    "sdef": "sdef pos=0 0 0 erg=d1",
+    "f": "f4:n 1",
+    "fm": "fm4 1.0",
+    "fs": "fs4 -1",
+    "nps": "nps 100",
+    "vol": "vol 1 1 1",
+}
+RICH_BAD = {  # a malformed card for each parser class: the read fails inside that parser
+    "cell": "3 0 2 ) (",
+    "surface": "2 so 10 )",
+    "read": "read file",
+    "m": "m1 1001.80c 2 (",
+    "mt": "mt1 (",
+    "tr": "tr1 0 0 (",
+    "mode": "mode (",
+    "kcode": "kcode 1000 ( 1",
+    "nps": "nps (",
+    "sdef": "sdef pos=0 0 0 erg=",
+    "f": "f4:n (1 2",
+    "fm": "fm4 (1",
+    "fs": "fs4 (",
+}
+
+
+def rich_problem(end=None, fail=None, first=None):
+    """a small valid problem with one card of every data family; `first`/`end` move a card to the start/end of the
+    data block; `fail` replaces the card of that family (or a cell / a surface / adds a read card) by a malformed one"""
+    cells, surfs = list(RICH_CELLS), list(RICH_SURFS)
+    order = list(RICH_DATA)
+    if first:
+        order.remove(first)
+        order.insert(0, first)
+    if end:
+        order.remove(end)
+        order.append(end)
+    data = [RICH_DATA[k] for k in order]
+    if fail == "cell":
+        cells[2] = RICH_BAD["cell"]
+    elif fail == "surface":
+        surfs[1] = RICH_BAD["surface"]
+    elif fail == "read":
+        cells.insert(0, RICH_BAD["read"])
+    elif fail:
+        data[order.index(fail)] = RICH_BAD[fail]
+    return "rich problem\n" + "\n".join(cells) + "\n\n" + "\n".join(surfs) + "\n\n" + "\n".join(data) + "\n\n"
+
+
+def make_object(kind, text):
+    """direct construction of one object from an Input, the way a user adds a card by hand"""
+    from montepy.input_parser.mcnp_input import ReadInput
+    from montepy.data_inputs import data_input, material, transform, mode, thermal_scattering, volume, importance
+    from montepy.data_inputs import universe_input, lattice_input, fill
+
+    if kind == "cell":
+        return montepy.Cell(_input(text, "CELL"))
+    if kind == "surface":
+        return _surf(text)
+    if kind == "data":
+        return _data(text)
+    if kind == "datainput":  # the generic class, without the internal prefix argument
+        return data_input.DataInput(_input(text, "DATA"))
+    if kind == "readinput":
+        from montepy.input_parser.block_type import BlockType
+
+        return ReadInput([text], BlockType.CELL)
+    classes = {
+        "material": material.Material,
+        "transform": transform.Transform,
+        "mode": mode.Mode,
+        "thermal": thermal_scattering.ThermalScatteringLaw,
+        "volume": volume.Volume,
+        "importance": importance.Importance,
+        "universe_input": universe_input.UniverseInput,
+        "lattice": lattice_input.LatticeInput,
+        "fill": fill.Fill,
+    }
+    return classes[kind](_input(text, "DATA"))
+
+
+def _shape(node, depth=0):
+    """names and nesting of a syntax tree (not its values)"""
+    if depth > 8:
+        return "..."
+    name = type(node).__name__
+    if name in ("ValueNode", "str", "CommentNode"):
+        return name
+    nodes = getattr(node, "nodes", None)
+    if isinstance(nodes, dict):
+        return [name, [[str(k), _shape(v, depth + 1)] for k, v in nodes.items()]]
+    if isinstance(nodes, (list, tuple)):
+        return [name, [_shape(v, depth + 1) for v in nodes]]
+    return name
+
+
+def describe_object(obj):
+    """what a freshly built object reports: class, tree shape, formatted text, and the values it exposes"""
+    d = {"cls": type(obj).__name__}
+    tree = getattr(obj, "_tree", None)
+    if tree is not None:
+        d["shape"] = _shape(tree)
+        try:
+            d["fmt"] = tree.format()
+        except Exception as e:  # noqa: BLE001
+            d["fmt"] = "raises " + type(e).__name__
+    for attr in ("data", "prefix", "number", "particles", "file_name", "classifier"):
+        if not hasattr(type(obj), attr):
+            continue
+        try:
+            v = getattr(obj, attr)
+            if attr == "data":
+                v = [getattr(n, "value", type(n).__name__) for n in v]
+            elif attr == "classifier":
+                v = v.format()
+            elif attr == "particles":
+                v = sorted(str(x) for x in v)
+            d[attr] = repr(v)
+        except Exception as e:  # noqa: BLE001
+            d[attr] = "raises " + type(e).__name__
+    return d
 
 
 # ----------------------------------------------------------------------------- free-standing objects for setter calls
@@ -361,6 +494,21 @@ class Runner:
                     fh.write(text)
             self.problems[pid] = montepy.read_input(os.path.join(d, top))
             return {"t": "ok"}
+        if name == "readrich":  # [readrich, pid, {"end": k, "fail": k, "first": k}]
+            _, pid, opts = op
+            d = self._dir()
+            path = os.path.join(d, "rich.i")
+            with open(path, "w") as fh:
+                fh.write(rich_problem(opts.get("end"), opts.get("fail"), opts.get("first")))
+            self.problems[pid] = montepy.read_input(path)
+            return {"t": "ok"}
+        if name == "make":  # [make, kind, text]: build one object straight from an Input
+            obj = make_object(op[1], op[2])
+            desc = describe_object(obj)
+            out = {"t": "made", "cls": desc["cls"], "sha": hashlib.sha256(json.dumps(desc, sort_keys=True, default=str).encode()).hexdigest()[:20]}
+            if self.keep_text:
+                out["desc"] = desc
+            return out
         if name == "readfix":  # a fixture of MontePy's own test-suite, read in place
             _, pid, fname = op
             self.problems[pid] = montepy.read_input(os.path.join(REPO, "tests", "inputs", fname))
@@ -491,6 +639,32 @@ def _generated_setters():
 _SETTERS = _generated_setters()
 
 
+def _class_snapshot():
+    """the non-dunder entries of the __dict__ of every class of the imported package, as they are right after import"""
+    snap = {}
+    for modname, mod in sorted(sys.modules.items()):
+        if not modname.startswith("montepy") or mod is None:
+            continue
+        for k in list(vars(mod).values()):
+            if isinstance(k, type) and k.__module__.startswith("montepy") and k not in snap:
+                snap[k] = {n: v for n, v in vars(k).items() if not (n.startswith("__") and n.endswith("__")) and n != "_abc_impl"}
+    return snap
+
+
+_CLASSES = _class_snapshot()
+
+
+def class_state_changes():
+    """class attributes added, removed or rebound since import (diagnostic only: names a latch, never a verdict)"""
+    out = []
+    for k, before in _CLASSES.items():
+        now = {n: v for n, v in vars(k).items() if not (n.startswith("__") and n.endswith("__")) and n != "_abc_impl"}
+        for n in sorted(set(before) | set(now)):
+            if n not in now or n not in before or now[n] is not before[n]:
+                out.append(f"{k.__name__}.{n}")
+    return sorted(out)
+
+
 def world_state():
     from montepy.input_parser import input_syntax_reader
     from montepy.input_parser.parser_base import MCNP_Parser
@@ -500,7 +674,7 @@ def world_state():
         fname = entry[1]
         q.append(int(fname[1:-4]) if fname.startswith("f") and fname.endswith(".txt") and fname[1:-4].isdigit() else fname)
     latched = sorted(name for name, cell, declared in _SETTERS if cell.cell_contents is not declared)
-    return {"queue": q, "log": len(MCNP_Parser.log) > 0, "latched": latched}
+    return {"queue": q, "log": len(MCNP_Parser.log) > 0, "latched": latched, "class_state": class_state_changes()}
 
 
 def execute(run, tmp=None):
@@ -552,6 +726,10 @@ def _isolated(run, timeout, tmp):
             warnings.simplefilter("ignore")
             try:
                 out = {"obs": execute(run, tmp)}
+                if run.get("fanout"):
+                    # every call of the fan-out is executed in its own fork of THIS state (right after the prefix)
+                    signal.alarm(0)
+                    out["fan"] = [isolated({"ops": [c]}, timeout) for c in run["fanout"]]
             except BaseException as e:  # noqa: BLE001
                 out = {"crash": f"{type(e).__name__}: {e}"}
             with os.fdopen(wfd, "w") as fh:
